@@ -135,6 +135,10 @@ type IdP struct {
 	IDTokenSpec        func(a *AuthRequest, u *User, refresh bool) *TokenSpec
 	NoRefreshToken     bool
 	NoIDTokenOnRefresh bool
+	// Issuer2Discovery: how the second issuer answers OIDC discovery: "" = well-formed, "404" = it has
+	// no discovery document (only /.well-known/jwks.json), "trailing-slash" = the document spells the
+	// issuer with a trailing slash (the verifier set up at start-up has to cope with its first attempt failing)
+	Issuer2Discovery   string
 	StaticRefreshToken bool // refresh grants do not rotate the refresh token (one saved browser state can be refreshed repeatedly)
 	RefreshFails       bool
 	TokenPadding       int // extra bytes in access tokens minted on refresh (growing sessions)
@@ -292,6 +296,14 @@ func (p *IdP) serve(c *Call, req *http.Request, form url.Values) *http.Response 
 	iss, key, kid := p.issuerOf(req)
 	switch c.Endpoint {
 	case "discovery":
+		if req.URL.Hostname() == Issuer2Host {
+			switch p.Issuer2Discovery {
+			case "404":
+				return RawResponse(req, 404, "text/plain", []byte("no discovery document here"))
+			case "trailing-slash":
+				iss += "/"
+			}
+		}
 		return jsonResp(req, 200, map[string]any{
 			"issuer":                                iss,
 			"authorization_endpoint":                iss + "/authorize",
